@@ -50,7 +50,25 @@ func baselines() []string {
 	return out
 }
 
-var scenarios = [][]int{{0, 1}, {0, 0}, {0, 3}, {1, 2}, {4, 0}, {5, 1}, {0, 1, 2}, {0, 0, 4}}
+// scenarios name the operations that run concurrently
+var scenarioNames = [][]string{{"parse-one", "parse-two"}, {"parse-one", "parse-one"}, {"parse-one", "parse-one-dfa"}, {"parse-two", "pattern"},
+	{"parse-bad", "parse-one"}, {"parse-three-lalr", "parse-two"}, {"pattern-class", "pattern-negated-class"}, {"parse-one", "parse-two", "pattern"}, {"parse-one", "parse-one", "parse-bad"}}
+
+var scenarios = func() [][]int {
+	var out [][]int
+	for _, names := range scenarioNames {
+		var sc []int
+		for _, n := range names {
+			for i, op := range Ops {
+				if op.Name == n {
+					sc = append(sc, i)
+				}
+			}
+		}
+		out = append(out, sc)
+	}
+	return out
+}()
 
 func runScenario(r *ev.Run, base []string, threads []int, bound int, prefix []int, replay bool) {
 	var results []string
@@ -122,7 +140,7 @@ func runScenario(r *ev.Run, base []string, threads []int, bound int, prefix []in
 		r.Set("exhaustive", false)
 	}
 	for _, d := range x.Diverged {
-		ev.Fatal("exploration diverged while replaying a prefix: %s", d)
+		r.InternalError("exploration diverged while replaying a prefix: %s", d)
 	}
 	if shard == 0 {
 		r.Add("scheduling_points_in_default_execution", x.MaxPoints)
@@ -277,7 +295,7 @@ func main() {
 	}
 	r.Set("bound_preemptions", bound)
 	for _, sc := range scenarios {
-		if r.Quick() && len(sc) > 2 && sc[2] == 4 {
+		if r.Quick() && len(sc) > 2 && Ops[sc[2]].Name == "parse-bad" {
 			continue
 		}
 		runScenario(r, base, sc, bound, nil, false)
